@@ -254,7 +254,61 @@ def _norm_ub(m):
     return "ubsan:%s:%s" % (f, d[:70].strip().replace(" ", "_"))
 
 
-UB_ENV = {"UBSAN_OPTIONS": "print_stacktrace=1:halt_on_error=0:exitcode=87"}
+# Symbolising inside the dying process costs ~0.15 s per report (llvm-symbolizer start-up); reports
+# are therefore printed as module+offset and symbolised here through one long-lived
+# llvm-symbolizer per worker with a cache (most crashes share a handful of PCs).
+UB_ENV = {"UBSAN_OPTIONS": "print_stacktrace=0:halt_on_error=0:exitcode=87:symbolize=0",
+          "ASAN_OPTIONS": common.SAN_ENV["ASAN_OPTIONS"].replace("symbolize=1", "symbolize=0")}
+SYMBOLIZER = common.SAN_ENV.get("ASAN_SYMBOLIZER_PATH", "llvm-symbolizer")
+_raw_frame_re = re.compile(r"^(\s*)#(\d+) (0x[0-9a-f]+)\s+\((\S+?)\+(0x[0-9a-f]+)\)[^\n]*$", re.M)
+
+
+class _Symbolizer:
+    def __init__(self):
+        self.p = None
+        self.cache = {}
+
+    def _start(self):
+        self.p = subprocess.Popen([SYMBOLIZER, "--inlines", "--functions=linkage", "--demangle"],
+                                  stdin=subprocess.PIPE, stdout=subprocess.PIPE, stderr=subprocess.DEVNULL)
+
+    def lookup(self, module, off):
+        k = (module, off)
+        r = self.cache.get(k)
+        if r is not None:
+            return r
+        r = []
+        try:
+            if self.p is None or self.p.poll() is not None:
+                self._start()
+            self.p.stdin.write(('"%s" %s\n' % (module, off)).encode())
+            self.p.stdin.flush()
+            lines = []
+            while True:
+                ln = self.p.stdout.readline()
+                if not ln or ln.strip() == b"":
+                    break
+                lines.append(ln.decode("utf-8", "replace").rstrip("\n"))
+            for i in range(0, len(lines) - 1, 2):
+                r.append((lines[i].strip(), lines[i + 1].strip()))
+        except OSError:
+            r = []
+        self.cache[k] = r
+        return r
+
+    def rewrite(self, text, max_frames=16):
+        def sub(m):
+            ind, idx, addr, module, off = m.groups()
+            if int(idx) >= max_frames:
+                return m.group(0)
+            fr = self.lookup(module, off)
+            if not fr:
+                return m.group(0)
+            return "\n".join("%s#%s %s in %s %s" % (ind, idx, addr, fn.split("(")[0] or "??", loc) for fn, loc in fr)
+        return _raw_frame_re.sub(sub, text)
+
+
+_symbolizer = _Symbolizer()
 OP_SELFTEST = 200
 
 
@@ -304,7 +358,7 @@ def run_cases_obs(exe, cases, args=(), env_extra=None, wall_timeout=900, batch=4
                 ub[k] = ub.get(k, 0) + 1
             if not crashed:
                 break
-            results.append(Crash(common.classify_crash(rc, tail), tail[:8000], rc))
+            results.append(Crash(common.classify_crash(rc, tail), _symbolizer.rewrite(tail[:8000]), rc))
             start += len(obs) + 1
         pos = end
     return results[:total], ub
@@ -370,6 +424,8 @@ def crash_key(crash, entry, detail="", site=True):
             first = False
             if "/drivers/" in loc:
                 break
+        if err == "stack-overflow":
+            return ":".join([kind, entry, err] + ([detail] if detail else []))
         if frame and site:
             parts[1] = frame
         parts.append(_GENERIC_ERR.get(err, err))
